@@ -1141,9 +1141,9 @@ func (o *BuiltinFunction) UnmarshalBinary(data []byte) error {
 	}
 
 	obj := ugo.BuiltinObjects[index]
-	f, ok := obj.(*BuiltinFunction)
+	f, ok := obj.(*ugo.BuiltinFunction)
 	if ok {
-		*o = *f
+		*o = BuiltinFunction(*f)
 		return nil
 	}
 	return fmt.Errorf("builtin '%s' not a ugo.BuiltinFunction type", s)
